@@ -457,6 +457,26 @@ func init() {
 		ConformanceQuick: 48, ConformanceThorough: 400,
 	})
 	props = append(props, &PropDef{
+		ID: "C14", Title: "Execution tracing is truthful and does not perturb execution", Level: "model_checking",
+		Patterns: []string{"verif/harness/c14"},
+		Jobs: func(tier string) []sym.Job {
+			var js []sym.Job
+			for cpu := 0; cpu < 2; cpu++ {
+				for op := 0; op < 256; op++ {
+					for mx := 0; mx < 4; mx++ {
+						js = append(js, job("c14", "Line", fmt.Sprintf("c14/line/%s/%s/m%dx%d", cpuNames[cpu], opName(op), mx>>1, mx&1), int64(cpu), int64(op), int64(mx>>1), int64(mx&1)))
+					}
+				}
+			}
+			js = append(js, c14LoggerJobs(tier)...)
+			return js
+		},
+		Bounds:           []string{"one trace line per opcode x width setting x interpreter from an arbitrary native-mode state and memory (all registers, flags and operand bytes symbolic); the previous step's cycle count is fixed to one digit", "non-perturbation: the disassembler call from that arbitrary state; plus RunUntil with and without a Logger on the C12 program family"},
+		Outside:          []string{"spacing and punctuation of the operand rendering (only required content is checked: bytes, mnemonic, operand digits high byte first, branch target, registers, flags)", "emulation mode", "cpualt's open-bus latch (not observable on a fully mapped bus)"},
+		Explanation:      "the line is parsed without branching on symbolic characters and compared with the pre-state and the 65816 opcode matrix (length, mnemonic, operand layout, branch target)",
+		ConformanceQuick: 64, ConformanceThorough: 1024,
+	})
+	props = append(props, &PropDef{
 		ID: "C15", Title: "Assembler listings reproduce exactly the bytes that were emitted", Level: "model_checking",
 		Solver: "z3-new", Fallbacks: []string{"cvc5"}, TimeoutQuickMs: 20000,
 		Patterns:         []string{"verif/harness/c15"},
@@ -781,3 +801,19 @@ func c13Jobs(tier string) []sym.Job {
 }
 
 func toBase9(l int) int { return l%9 + 10*(l/9%9) + 100*(l/81) }
+
+func c14LoggerJobs(tier string) []sym.Job {
+	k, budget := 2, 7
+	if tier == "thorough" {
+		k, budget = 3, 9
+	}
+	n := 1
+	for i := 0; i < k; i++ {
+		n *= 8
+	}
+	var js []sym.Job
+	for p := 0; p < n; p++ {
+		js = append(js, job("c14", "LoggerOnOff", fmt.Sprintf("c14/logger-on-off/k%d/prog%04o/budget<=%d", k, p, budget), int64(p), int64(k), int64(budget)))
+	}
+	return js
+}
